@@ -4,6 +4,7 @@ import (
 	"fmt"
 	"go/token"
 	"go/types"
+	"strings"
 
 	"golang.org/x/tools/go/ssa"
 )
@@ -51,7 +52,7 @@ func (u *Unit) strToSlice(st *State, s Term, goT types.Type) Term {
 
 // typeTag gives every concrete type that is put into an interface a stable small integer.
 func (e *Engine) typeTag(t types.Type) int {
-	k := types.TypeString(t, nil)
+	k := reRune.ReplaceAllString(reByte.ReplaceAllString(types.TypeString(t, nil), "uint8"), "int32")
 	if e.typeTags == nil {
 		e.typeTags = map[string]int{}
 	}
@@ -79,11 +80,14 @@ func (f *frame) makeInterface(ins *ssa.MakeInterface) Val {
 		f.bad("MakeInterface of non-term value")
 	}
 	var payload Term
+	bvp := "(_ bv0 64)"
 	switch xt.T.K {
 	case KInt, KRef, KFunc, KMap, KErr:
 		payload = Term{xt.S, sInt}
 	case KBV:
-		payload = u.toInt(xt)
+		// fixed-width values travel as bit-vectors (extended to 64 bits), never through Int
+		payload = Term{"0", sInt}
+		bvp = u.bvResize(xt, bvSort(64, xt.T.Signed)).S
 	case KBool:
 		payload = Term{"(ite " + xt.S + " 1 0)", sInt}
 	default:
@@ -92,7 +96,7 @@ func (f *frame) makeInterface(ins *ssa.MakeInterface) Val {
 		u.store(f.cur, r, xt)
 		payload = Term{r.S, sInt}
 	}
-	return u.define(f.key+"_"+ins.Name(), Term{fmt.Sprintf("(mk-iface %d %s)", tag, payload.S), its})
+	return u.define(f.key+"_"+ins.Name(), Term{fmt.Sprintf("(mk-iface %d %s %s)", tag, payload.S, bvp), its})
 }
 
 func (f *frame) typeAssert(ins *ssa.TypeAssert) Val {
@@ -113,7 +117,11 @@ func (f *frame) typeAssert(ins *ssa.TypeAssert) Val {
 	case KInt, KRef, KFunc, KMap:
 		v = Term{pl.S, ts}
 	case KBV:
-		v = Term{fmt.Sprintf("((_ int2bv %d) %s)", ts.W, pl.S), ts}
+		if ts.W == 64 {
+			v = Term{"(i-bv " + x.S + ")", ts}
+		} else {
+			v = Term{fmt.Sprintf("((_ extract %d 0) (i-bv %s))", ts.W-1, x.S), ts}
+		}
 	case KBool:
 		v = Term{"(= " + pl.S + " 1)", ts}
 	default:
@@ -164,4 +172,42 @@ func (f *frame) lookup(ins *ssa.Lookup) Val {
 
 func (f *frame) mapUpdate(ins *ssa.MapUpdate) {
 	f.u.note("map update in %s is not modelled (maps are opaque)", f.key)
+}
+
+// typeTagByName resolves a Go type written in a contract (uint16, smf.MetricTicks, *bytes.Buffer) to its tag.
+func (e *Engine) typeTagByName(name string, pkg *ssa.Package) int {
+	ptr := strings.HasPrefix(name, "*")
+	n := strings.TrimPrefix(name, "*")
+	var t types.Type
+	if obj := types.Universe.Lookup(n); obj != nil {
+		if tn, ok := obj.(*types.TypeName); ok {
+			t = tn.Type()
+		}
+	}
+	if t == nil {
+		pn, tn := "", n
+		if i := strings.Index(n, "."); i > 0 {
+			pn, tn = n[:i], n[i+1:]
+		}
+		var p *ssa.Package
+		if pn == "" {
+			p = pkg
+		} else {
+			p = e.pkgByName[pn]
+		}
+		if p != nil {
+			if obj := p.Pkg.Scope().Lookup(tn); obj != nil {
+				if x, ok := obj.(*types.TypeName); ok {
+					t = x.Type()
+				}
+			}
+		}
+	}
+	if t == nil {
+		panic(unsupported{"typeid: unknown type " + name})
+	}
+	if ptr {
+		t = types.NewPointer(t)
+	}
+	return e.typeTag(t)
 }
